@@ -30,6 +30,8 @@ pub enum Cand {
     Malformed(SetGen, Malform),
     /// a set installed earlier in this history (monotone index, oldest first)
     Repeat(u16),
+    /// same signers, weights and threshold as an installed set, but a new nonce: a different set
+    Renonce(u16),
 }
 
 #[derive(Clone, Copy, Debug, Serialize, Deserialize, PartialEq, Eq)]
@@ -73,6 +75,7 @@ fn cand() -> impl Strategy<Value = Cand> {
         5 => setgen(6).prop_map(Cand::Fresh),
         4 => (setgen(6), malform()).prop_map(|(g, m)| Cand::Malformed(g, m)),
         2 => any::<u16>().prop_map(Cand::Repeat),
+        1 => any::<u16>().prop_map(Cand::Renonce),
     ]
 }
 
@@ -162,6 +165,16 @@ fn resolve(c: &Cand, installed: &[BuiltSet], nonce: u8, cx: &mut Cx) -> BuiltSet
                 installed[pick(*i, installed.len())].clone()
             }
         }
+        Cand::Renonce(i) => {
+            if installed.is_empty() {
+                SetGen { seeds: vec![1], w: vec![WClass::One], t: TClass::One }.build(nonce)
+            } else {
+                cx.label("same_signers_new_nonce");
+                let mut b = installed[pick(*i, installed.len())].clone();
+                b.nonce = [nonce; 32];
+                b
+            }
+        }
     }
 }
 
@@ -205,7 +218,7 @@ impl Property for C03 {
         "C03"
     }
     fn rule(&self) -> &'static str {
-        "proptest: (a) gateway with retention 0-3 and 1-3 initial sets, history of <=8 (quick) / <=14 (thorough) rotation attempts, each = candidate (fresh well-formed set with boundary weights/thresholds; or one malformation: empty, adjacent equal keys, descending pair, all-zero first key, zero weight, weights summing past u128, threshold 0 / total+1; or a repeat of an installed set) x proving set (latest, any installed, never installed, latest signing a different candidate) x bypass x operator authorisation; (b) constructor cases with 0-4 such candidates. Oracle: well-formedness predicate from the statement, reference epoch/lookup model with independent set hashes, inverse-lookup invariant over every epoch and every hash ever attempted after each step, ledger-snapshot equality after every failure. non-trivial = a malformed or repeated candidate, or a non-latest proving set, occurs"
+        "proptest: (a) gateway with retention 0-3 and 1-3 initial sets, history of <=8 (quick) / <=14 (thorough) rotation attempts, each = candidate (fresh well-formed set with boundary weights/thresholds; or one malformation: empty, adjacent equal keys, descending pair, all-zero first key, zero weight, weights summing past u128, threshold 0 / total+1; or a repeat of an installed set; or an installed set's signers under a new nonce, which is a different set) x proving set (latest, any installed, never installed, latest signing a different candidate) x bypass x operator authorisation; (b) constructor cases with 0-4 such candidates. Oracle: well-formedness predicate from the statement, reference epoch/lookup model with independent set hashes, inverse-lookup invariant over every epoch and every hash ever attempted after each step, ledger-snapshot equality after every failure. non-trivial = a malformed or repeated candidate, or a non-latest proving set, occurs"
     }
     fn assumptions(&self) -> Vec<&'static str> {
         vec!["a well-formed set whose first key is all-zero is not decided by the statement (Either)"]
